@@ -30,8 +30,10 @@ fn payload_of(msg: &[u8]) -> Vec<u8> {
     p
 }
 
-/// [C03] sign: message ‖ 96-byte signature that the specification's verifier accepts (and, the backend being an RFC 6979
-/// signer, equal to the specification's deterministic signer); [C01] length
+/// [C03] sign: message ‖ 96-byte signature that the specification's verifier accepts. The backend is an RFC 6979 signer, so r is
+/// the specification's deterministic r0; ECDSA signatures come in twins (r, s) / (r, n - s) that verify together and the
+/// specification does not prescribe which one to emit (no low-S rule), so s must be s0 or n - s0 — byte equality with (r0, s0)
+/// would forbid the (permitted) normalisation to low-S. [C01] length
 pub fn sign_is_spec(M: usize, F: usize, A: usize) {
     let T = M + SIG;
     let d = any_scalar();
@@ -44,6 +46,7 @@ pub fn sign_is_spec(M: usize, F: usize, A: usize) {
     let mut specb = [0u8; TX];
     let spec = &mut specb[..T];
     vspec::v3::public_sign(&d, msg, b"", f, a, spec);
+    let s_twin = vspec::v3::p384_neg_scalar(&spec[M + 48..]);
     let sk = sk_of(&d);
     let pk = pk_bytes(&<V3 as SealingVersion<Public>>::unsealing_key(&sk));
     let pk_is_spec = pk == vspec::v3::p384_pk(&d);
@@ -52,18 +55,26 @@ pub fn sign_is_spec(M: usize, F: usize, A: usize) {
     let out = r.unwrap_or_default();
     let len_ok = out.len() == T;
     let verifies = len_ok && vspec::v3::public_verify(&pk, &out, b"", f, a) == Some(M);
+    let r_is_spec = len_ok && out[M..M + 48] == spec[M..M + 48];
+    let s_is_spec_or_twin = len_ok && (out[M + 48..] == spec[M + 48..] || out[M + 48..] == s_twin[..]);
     vcheck_all!(
         (pk_is_spec, "[C08] the public key derived from a secret key is the compressed P-384 point of its scalar"),
         (ok, "[C01] signing always succeeds"),
         (!ok || len_ok, "[C01] signed payload length is |message| + 96"),
         (!ok || (len_ok && out[..M] == msg[..]), "[C03] the signed payload starts with the unmodified message"),
         (!ok || verifies, "[C03] the v3.public signature verifies under the specification (ECDSA-P384-SHA384 over PAE(pk, h, m, f, i), r||s)"),
-        (!ok || out[..] == spec[..], "[C03] v3.public sign output equals the specification's deterministic (RFC 6979) signer's token"),
+        (!ok || r_is_spec, "[C03] the r of a v3.public signature is the r of the specification's deterministic (RFC 6979) signer"),
+        (!ok || s_is_spec_or_twin, "[C03] the s of a v3.public signature is the s of the specification's deterministic (RFC 6979) signer or its twin n - s"),
     );
+    kani::cover!(ok && len_ok && out[M + 48..] == s_twin[..], "signature emitted in the twin (normalised) form explored");
+    kani::cover!(ok && len_ok && out[M + 48..] == spec[M + 48..], "signature emitted as produced explored");
 }
 
-/// [C03]/[C01] verify accepts the specification's token and returns exactly the message
-pub fn verify_accepts_spec(M: usize, F: usize, A: usize) {
+/// [C03]/[C01] verify accepts the specification's token and returns exactly the message. The specification does not require
+/// low-S, and signers differ (paseto-v3 normalises s, paseto-v3-aws-lc and the reference implementations do not): BOTH forms of a
+/// signature are specification-conforming. `twin = false`: the token as the specification's signer produces it (s0 is any value
+/// in 1..n-1, low or high); `twin = true`: the same token with s replaced by n - s0.
+pub fn verify_accepts_spec(M: usize, F: usize, A: usize, twin: bool) {
     let T = M + SIG;
     let d = any_scalar();
     let msgb: [u8; MX] = kani::any();
@@ -75,6 +86,11 @@ pub fn verify_accepts_spec(M: usize, F: usize, A: usize) {
     let mut tokb = [0u8; TX];
     let tok = &mut tokb[..T];
     vspec::v3::public_sign(&d, msg, b"", f, a, tok);
+    if twin {
+        let neg = vspec::v3::p384_neg_scalar(&tok[M + 48..]);
+        tok[M + 48..].copy_from_slice(&neg);
+    }
+    let high = vspec::v3::p384_is_high(&tok[M + 48..]);
     // the verifier's key arrives as the 49 specified bytes (k3.public), through the stable decoder
     let pkb = vspec::v3::p384_pk(&d);
     let _honest = sk_of(&d); // the key pair was honestly generated: its point is on the curve (model assumption made at derivation)
@@ -86,9 +102,11 @@ pub fn verify_accepts_spec(M: usize, F: usize, A: usize) {
     let ok = r.is_ok();
     let same = match r { Ok(m) => m == msg, Err(_) => false };
     vcheck_all!(
-        (ok, "[C03] every specification-conforming v3.public token is accepted under the signer's public key"),
+        (ok, "[C03] every specification-conforming v3.public token is accepted under the signer's public key, whichever of the two forms (r, s) / (r, n - s) its signer emitted (the specification has no low-S rule)"),
         (!ok || same, "[C01] verify returns exactly the signed message"),
     );
+    kani::cover!(high, "token with s > n/2 (high-S form) explored");
+    kani::cover!(!high, "token with s <= n/2 (low-S form) explored");
 }
 
 /// [C01] library's own nonce() (empty for public), sign, verify with the derived key
@@ -119,7 +137,11 @@ pub fn roundtrip_own_nonce(M: usize, F: usize, A: usize) {
     );
 }
 
-/// [C02]/[C12] any single flipped bit of message or signature, any other public key, footer or assertion change => Err
+/// [C02]/[C12] any single flipped bit of message or signature, any other public key, footer or assertion change => Err.
+/// ECDSA malleability: the one other byte string that verifies for the same message is the twin (r, n - s0). It is never a
+/// single-bit neighbour of (r, s0): n is odd, so s0 and n - s0 differ in bit 0, and they differ in nothing else only for
+/// {s0, n - s0} = {(n-1)/2, (n+1)/2} = {..b9, ..ba}, which differ in two bits. The arithmetic is exact in the models, so the
+/// solver decides this itself — no assumption is made here. (The twin as a whole is accepted: verify_accepts_spec_twin_*.)
 pub fn verify_rejects_tamper(M: usize, F: usize, A: usize) {
     let T = M + SIG;
     let d = any_scalar();
@@ -376,8 +398,10 @@ macro_rules! inst {
 inst! {
     sign_is_spec_0_0_0 = sign_is_spec(0, 0, 0);
     sign_is_spec_3_2_1 = sign_is_spec(3, 2, 1);
-    verify_accepts_spec_0_0_0 = verify_accepts_spec(0, 0, 0);
-    verify_accepts_spec_3_2_1 = verify_accepts_spec(3, 2, 1);
+    verify_accepts_spec_0_0_0 = verify_accepts_spec(0, 0, 0, false);
+    verify_accepts_spec_3_2_1 = verify_accepts_spec(3, 2, 1, false);
+    verify_accepts_spec_twin_0_0_0 = verify_accepts_spec(0, 0, 0, true);
+    verify_accepts_spec_twin_3_2_1 = verify_accepts_spec(3, 2, 1, true);
     roundtrip_own_nonce_0_0_0 = roundtrip_own_nonce(0, 0, 0);
     roundtrip_own_nonce_1_1_1 = roundtrip_own_nonce(1, 1, 1);
     verify_rejects_tamper_0_0_0 = verify_rejects_tamper(0, 0, 0);
